@@ -3,7 +3,7 @@ from pyvc.runner import func
 
 ID = "C05"
 META = dict(
-    assumptions=["A-REAL", "A-COMM", "A-T", "A-DATA-NONE", "A-CYTHON", "A-SOLVER", "A-ENGINE"],
+    assumptions=["A-REAL", "A-COMM", "A-T", "A-CYTHON", "A-SOLVER", "A-ENGINE"],
     explanation="SecurityBase.allocate verified against: allocate == [catch-up update]; transact(q*) with q* characterised by the budget clauses "
     "(cost equals amount within np.isclose's own tolerance, or whole-unit q is the largest that fits), close-out, zero amount, refusal on bad price; "
     "sizing-search loop cut at the invariant full_outlay == full(q) and (integer => q integral) and nothing booked; outlay and transact under functional contracts.",
